@@ -173,6 +173,20 @@ CLAIMED["C17"] = dict(
     design="DESIGN.md section 6, C17",
 )
 
+CLAIMED["C11"] = dict(
+    text="Lean 4 theorems over a model of PlaceholderMaker that makes Python's reference semantics explicit (detached elements "
+    "live in a heap the table entries point into): for every history of do_tree calls on one maker, any documents and tag "
+    "choices, the table is one-to-one in both directions, entries are never changed or removed - so an element identical in two "
+    "documents gets the same placeholder whatever was processed in between - and a newly allocated placeholder is fresh. "
+    "PARTIAL: the round trip undo_tree(do_tree(t)) = t is not proved; it is decided on every run by the oracle on the real maker "
+    "and by unit U7, which compares the trees after do_tree, the placeholder table with its keys, and the trees after undo_tree "
+    "between model and code (one or two documents per maker, random tag subsets).",
+    note="Trusted: Lean kernel and standard axioms; model validated by U7; lxml serialisation (tounicode) is modelled as the "
+    "id-erased subtree value; documents without private-use characters, < 6400 placeholders.",
+    technique="Lean 4 proof (invariant by induction over get_placeholder / do_tree histories) + model/code correspondence + round-trip oracle",
+    design="DESIGN.md section 6, C11",
+)
+
 NOT_YET = {}
 
 
